@@ -1,6 +1,9 @@
 package router
 
 import (
+	"github.com/IrineSistiana/mosproxy/internal/pool"
+	"time"
+	"net/netip"
 	"context"
 
 	"github.com/IrineSistiana/mosproxy/internal/dnsmsg"
@@ -100,3 +103,92 @@ func VerifH_C12_ResponseOPT_S8() {
 // client OPT advertising ANY 16-bit payload size (the scenario of C09_UDPClientSize, registered under the EDNS0
 // property as well): the OPT is never what gets dropped, and a query without OPT never gets one.
 func VerifH_C12_OPTSurvivesTruncation() { VerifH_C09_UDPClientSize() }
+
+// vOptUpstream answers with an A record (TTL 60) for the question asked and an OPT of its own carrying options (a
+// cookie, an ECS echo, padding — five opaque octets here).
+type vOptUpstream struct{ calls int }
+
+func (u *vOptUpstream) ExchangeContext(ctx context.Context, q []byte) (*dnsmsg.Msg, error) {
+	u.calls++
+	m := dnsmsg.NewMsg()
+	if err := m.Unpack(q); err != nil {
+		return nil, err
+	}
+	if rr := dnsmsg.PopEDNS0(m); rr != nil {
+		dnsmsg.ReleaseResource(rr)
+	}
+	m.Response = true
+	a := dnsmsg.NewA()
+	a.Name = dnsmsg.Name(pool.CopyBuf(m.Questions[0].Name))
+	a.Type, a.Class, a.TTL = dnsmsg.TypeA, 1, 60
+	a.A = [4]byte{192, 0, 2, byte(u.calls)}
+	m.Answers = append(m.Answers, a)
+	opt := dnsmsg.NewRaw()
+	opt.Type, opt.Class, opt.TTL = dnsmsg.TypeOPT, 4096, 0x8000
+	d := pool.GetBuf(5)
+	copy(d, []byte{0, 10, 0, 1, 0xAB})
+	opt.Data = d
+	m.Additionals = append(m.Additionals, opt)
+	return m, nil
+}
+func (u *vOptUpstream) Close() error { return nil }
+
+// VerifH_C12_EveryServingPathStripsOptions: "EDNS options supplied by the upstream … are never relayed", on every path
+// an answer can take to a client — fresh from the upstream, from the cache, and from a cache entry that was rewritten
+// by a BACKGROUND REFRESH. Under a harness clock: miss at t=0, hit at 50 s (inside the refresh window: a refresh runs
+// and stores its result), hit at 51 s (served from the refreshed entry); the upstream always attaches an OPT with
+// options. Every response to a client that sent an OPT carries exactly one OPT {root, 1200, ttl 0, no options}; a client
+// without OPT gets none.
+func VerifH_C12_EveryServingPathStripsOptions() {
+	verifrt.Unwind(400)
+	verifrt.SchedBound(1)
+	verifrt.CtxNoExpiry = true
+	verifrt.Expect("refreshed")
+	base := time.Unix(1700000000, 0)
+	offset := time.Duration(0)
+	verifrt.Redirect("time.Now", func() time.Time { return base.Add(offset) })
+	verifrt.Redirect("time.Until", func(t time.Time) time.Duration { return t.Sub(base.Add(offset)) })
+	verifrt.Redirect("time.Since", func(t time.Time) time.Duration { return base.Add(offset).Sub(t) })
+	up := &vOptUpstream{}
+	r := vRouter([]*rule{{upstream: &upstreamWrapper{tag: "up", u: up}}}, true)
+	ask := func(id uint16, withOpt bool) {
+		m := dnsmsg.NewMsg()
+		m.Header.ID, m.Header.RecursionDesired = id, true
+		q := dnsmsg.NewQuestion()
+		q.Name, q.Type, q.Class = dnsmsg.Name([]byte{1, 'q'}), 1, 1
+		m.Questions = append(m.Questions, q)
+		if withOpt {
+			m.Additionals = append(m.Additionals, vRawFixed("client.optrr", dnsmsg.TypeOPT, 0, 0))
+		}
+		rc := getRequestContext()
+		rc.RemoteAddr = netip.AddrPortFrom(netip.AddrFrom4([4]byte{198, 51, 100, 7}), 999)
+		r.handleServerReq(m, rc)
+		resp := rc.Response.Msg
+		verifrt.Assert(resp != nil && resp.RCode == 0 && len(resp.Answers) == 1, "answered")
+		n := 0
+		for _, rr := range resp.Additionals {
+			if rr.Hdr().Type == dnsmsg.TypeOPT {
+				n++
+				raw, isRaw := rr.(*dnsmsg.RawResource)
+				verifrt.Assert(isRaw && len(raw.Name) == 0 && raw.Class == 1200 && raw.TTL == 0 && len(raw.Data) == 0,
+					"the response OPT is the proxy's own: root, class 1200, ttl 0, no options")
+			}
+		}
+		if withOpt {
+			verifrt.Assert(n == 1, "query with OPT: exactly one OPT in the response")
+		} else {
+			verifrt.Assert(n == 0, "query without OPT: no OPT in the response")
+		}
+		verifrt.Quiesce()
+	}
+	ask(1, true)
+	verifrt.Assert(up.calls == 1, "miss forwarded")
+	offset = 50 * time.Second
+	ask(2, verifrt.Bool("second.opt"))
+	verifrt.Assert(up.calls == 2, "hit in the window: one background refresh")
+	verifrt.Reach("refreshed")
+	offset = 51 * time.Second
+	ask(3, true)
+	ask(4, false)
+	verifrt.Assert(up.calls == 2, "served from the refreshed entry")
+}
